@@ -20,9 +20,10 @@ let key_of_string (s : string) : n list option =
   end
 let key_exn s = match key_of_string s with Some k -> k | None -> []
 let string_of_key (k : n list) : string =
+  if (match k with [b] -> int_of_n b = 256 | _ -> false) then "-" else
   "k" ^ String.concat "" (List.map (fun b -> Printf.sprintf "%02x" (int_of_n b)) k)
 
-type st = NoMap | Hash of n * hstate | Failed
+type st = NoMap | Hash of n * hstate | Skip of kstate | Failed
 
 let out = Buffer.create 65536
 let pr s = Buffer.add_string out s; Buffer.add_char out '\n'
@@ -89,7 +90,7 @@ let () =
         (match split_ws lines.(!j) with ["o"; v] -> oracle := z_of_string v :: !oracle | _ -> ());
         incr j
       done;
-      let _oracle = List.rev !oracle in
+      let oracle = List.rev !oracle in
       let w = split_ws (String.sub line 3 (String.length line - 3)) in
       (match !state with
        | Failed -> ()
@@ -97,6 +98,7 @@ let () =
          pr line;
          (match w, !state with
           | ["M"; "h"; sz], _ -> let m = n_of_int (int_of_string sz) in state := Hash (m, h_create m); pr "r ok"
+          | ["M"; "s"], _ -> state := Skip k_create; pr "r ok"
           | ["L"; _], _ -> pr "r ok"
           | _, NoMap -> pr "r ignored"
           | _, Hash (m, s) ->
@@ -111,6 +113,17 @@ let () =
                   (match o, r with IterCreate _, ONone -> pr "r ok" | _ -> print_out r);
                   (* a destroyed map is gone: the harness forgets it *)
                   state := (match o with Destroy -> NoMap | _ -> Hash (m, s'))))
+          | _, Skip s ->
+            (match parse_op w with
+             | None -> pr "r ignored"
+             | Some o ->
+               (match skip_exec_step fixed s o oracle with
+                | Err e -> pr ("r ERROR " ^ string_of_error e); state := Failed
+                | Ok ((s', r), ns) ->
+                  (match r with OEntries l -> List.iter (fun (k, v) -> pr (Printf.sprintf "e %s %s" (string_of_key k) (string_of_n v))) l | _ -> ());
+                  print_notifs ns;
+                  (match o, r with IterCreate _, ONone -> pr "r ok" | _ -> print_out r);
+                  state := (match o with Destroy -> NoMap | _ -> Skip s')))
           | _, Failed -> ()))
     end
   done;
